@@ -2,6 +2,7 @@ package guards
 
 import (
 	"go/token"
+	"go/types"
 
 	"golang.org/x/tools/go/ssa"
 )
@@ -221,4 +222,132 @@ func (a *FuncAn) onceLoadNonNil(v ssa.Value) bool {
 		}
 	}
 	return false
+}
+
+// poolAssertOK: x is `pool.Get().(T)` on a package-level sync.Pool whose every object has dynamic type T: the New
+// function installed by the package initialiser returns a non-nil T on every path, and every Put in the module puts a
+// T. (A pool without New hands out nil when empty: the assertion would panic.)
+func (e *Engine) poolAssertOK(x *ssa.TypeAssert) bool {
+	call, ok := x.X.(*ssa.Call)
+	if !ok {
+		return false
+	}
+	sc := call.Call.StaticCallee()
+	if sc == nil || sc.String() != "(*sync.Pool).Get" || len(call.Call.Args) != 1 {
+		return false
+	}
+	pool, ok := call.Call.Args[0].(*ssa.Global)
+	if !ok {
+		return false
+	}
+	isT := func(v ssa.Value) bool {
+		mi, ok := v.(*ssa.MakeInterface)
+		if !ok || !types.Identical(mi.X.Type(), x.AssertedType) {
+			return false
+		}
+		switch mi.X.(type) {
+		case *ssa.Alloc, *ssa.MakeSlice, *ssa.MakeMap:
+			return true // a fresh, non-nil object
+		}
+		_, isPtr := mi.X.Type().Underlying().(*types.Pointer)
+		return !isPtr // a non-pointer dynamic value is never a nil interface
+	}
+	var newFn *ssa.Function
+	fns := append([]*ssa.Function(nil), e.moduleFuncs...)
+	if pool.Pkg != nil {
+		if init := pool.Pkg.Func("init"); init != nil {
+			fns = append(fns, init)
+		}
+	}
+	seen := map[*ssa.Function]bool{}
+	for _, f := range fns {
+		if seen[f] || f.Blocks == nil {
+			continue
+		}
+		seen[f] = true
+		for _, b := range f.Blocks {
+			for _, ins := range b.Instrs {
+				for _, op := range ins.Operands(nil) {
+					if op == nil || *op != ssa.Value(pool) {
+						continue
+					}
+					switch u := ins.(type) {
+					case *ssa.FieldAddr:
+						// only the initialiser may touch the fields, and only to install New
+						if !isPkgInit(f) {
+							return false
+						}
+						for _, r := range *u.Referrers() {
+							st, ok := r.(*ssa.Store)
+							if !ok || st.Addr != ssa.Value(u) {
+								return false
+							}
+							fn := literalArg(st.Val)
+							if mc, isMC := st.Val.(*ssa.MakeClosure); isMC && len(mc.Bindings) > 0 {
+								return false
+							}
+							if fn == nil || newFn != nil {
+								return false
+							}
+							newFn = fn
+						}
+					case *ssa.Call:
+						c := u.Call.StaticCallee()
+						if c == nil || u.Call.Args[0] != ssa.Value(pool) {
+							return false
+						}
+						switch c.String() {
+						case "(*sync.Pool).Get":
+						case "(*sync.Pool).Put":
+							if !isT(u.Call.Args[1]) && !putsPooled(u.Call.Args[1], pool, x.AssertedType) {
+								return false
+							}
+						default:
+							return false
+						}
+					case *ssa.Defer:
+						c := u.Call.StaticCallee()
+						if c == nil || c.String() != "(*sync.Pool).Put" || u.Call.Args[0] != ssa.Value(pool) {
+							return false
+						}
+						if !isT(u.Call.Args[1]) && !putsPooled(u.Call.Args[1], pool, x.AssertedType) {
+							return false
+						}
+					case *ssa.DebugRef:
+					default:
+						return false
+					}
+				}
+			}
+		}
+	}
+	if newFn == nil || newFn.Blocks == nil {
+		return false
+	}
+	for _, b := range newFn.Blocks {
+		if ret, ok := b.Instrs[len(b.Instrs)-1].(*ssa.Return); ok {
+			if len(ret.Results) != 1 || !isT(ret.Results[0]) {
+				return false
+			}
+		}
+	}
+	return true
+}
+
+// putsPooled: v is an interface made from a value that was itself asserted out of this pool with type T.
+func putsPooled(v ssa.Value, pool *ssa.Global, T types.Type) bool {
+	mi, ok := v.(*ssa.MakeInterface)
+	if !ok || !types.Identical(mi.X.Type(), T) {
+		return false
+	}
+	ta, ok := mi.X.(*ssa.TypeAssert)
+	if !ok {
+		return false
+	}
+	call, ok := ta.X.(*ssa.Call)
+	if !ok {
+		return false
+	}
+	sc := call.Call.StaticCallee()
+	return sc != nil && sc.String() == "(*sync.Pool).Get" && len(call.Call.Args) == 1 && call.Call.Args[0] == ssa.Value(pool)
 }
